@@ -659,6 +659,120 @@ def native_module_cache(w=None):
     return (bool(problems), "; ".join(problems[:2]) or "the default module is cached once, built from no variables; extra globals give uncached modules")
 
 
+def _default_module_fresh_cls():
+    from contracts import c05
+
+    class DefaultModuleFresh(c05.DefaultModule):
+        """C29.module.pure (extended): whatever _get_default_module(ctx) returns is either the one cached default module (built
+        WITHOUT variables; only when the importing context has no extra globals) or a module MADE IN THIS CALL from this context's
+        values.  No other object that outlives the call may be returned, and nothing but Template._module may be stored on the
+        template.  The template and the context are OPEN objects here: attributes the contract does not know (any memo table a
+        change might add) are arbitrary pre-existing values whose methods return arbitrary pre-existing values."""
+        prop = "C29"
+
+        def __init__(self, is_async, ctx_given):
+            c05.DefaultModule.__init__(self, is_async, ctx_given)
+            self.prop = "C29"
+            nm = "_get_default_module" + ("_async" if is_async else "")
+            self.name = f"C29.module.pure.fresh.{nm}[ctx={'context' if ctx_given else 'None'}]"
+
+        def configure(self, I):
+            c05.DefaultModule.configure(self, I)
+            from pyvc.values import BoundMethod
+            prev_m, prev_g = I.specs.get("method_obj"), I.specs.get("getattr_obj")
+
+            def method_obj(I_, st, args, kwargs, node):
+                r = prev_m(I_, st, args, kwargs, node) if prev_m else None
+                if r is not None:
+                    return r
+                return A.abstract_fn("opaque.method", returns="obj")(I_, st, args, kwargs, node)
+
+            def getattr_obj(I_, st, args, kwargs, node):
+                r = prev_g(I_, st, args, kwargs, node) if prev_g else None
+                return r if r is not None else [(st, BoundMethod(args[0], args[1]))]
+
+            def setitem_obj(I_, st, args, kwargs, node):
+                st.trace.append(Event("write", "opaque.setitem", args))
+                return [(st, None)]
+
+            I.specs["method_obj"], I.specs["getattr_obj"], I.specs["setitem_obj"] = method_obj, getattr_obj, setitem_obj
+            I.specs[("fn", id(frozenset))] = A.abstract_fn("frozenset", returns="obj")
+
+        def setup(self, I, st):
+            r = c05.DefaultModule.setup(self, I, st)
+            st.get(self.t).open = True
+            if self.ctx is not None:
+                st.get(self.ctx).open = True
+            return r
+
+        def p_fresh(self, pre, out):
+            st = out.st
+            q = z3.Const(fresh_name("q"), z3.StringSort())
+            any_extra = z3.Exists([q], self.extra(q)) if self.ctx_given else z3.BoolVal(False)
+            if out.raised:
+                return z3.And(out.value.cls is RuntimeError and not self.is_async, self.env_async.t)
+            mk = A.calls(out, "self.make_module")
+            made = [e for e in mk if out.value is e.result]
+            stores = [e for e in st.trace if e.kind == "write" and e.name == "opaque.setitem"]
+            now = st.get(self.t).fields.get("_module")
+            if stores:
+                return z3.Not(z3.BoolVal(True)) if False else False  # a module (or anything) is memoised in a table that outlives the call
+            if made:
+                e = made[0]
+                if len(mk) != 1:
+                    return False
+                if len(e.args) > 1 or e.kwargs:   # made from variables: only for extra globals, and never cached
+                    return z3.And(any_extra, now is self.cached)
+                return z3.And(z3.Not(any_extra), z3.Not(self.has_cache.t), now is e.result)
+            if out.value is self.cached and not mk:
+                return z3.And(z3.Not(any_extra), self.has_cache.t, now is self.cached)
+            return False  # an object that was neither made in this call nor is the cached default module
+
+        posts = [("returns_cached_default_or_a_module_made_in_this_call", p_fresh)]
+
+        def replay(self, w):
+            return native_import_globals(w)
+
+        def finding_key(self, res):
+            return "module-for-extra-globals"
+
+    return DefaultModuleFresh
+
+
+def native_import_globals(w=None):
+    """native: the same library imported by pages with DIFFERENT values of the same template globals, in both orders,
+    through get_template and from_string, sync and async"""
+    import asyncio
+    import jinja2
+    problems = []
+    lib = "{% macro f() %}[{{ site }}|{{ g }}]{% endmacro %}{% set v = site %}"
+    page = "{% import 'lib' as lib %}{{ lib.f() }}{{ lib.v }}{% from 'lib' import f %}{{ f() }}"
+    for is_async in (False, True):
+        def render(t):
+            return asyncio.run(t.render_async()) if is_async else t.render()
+        for order in (("alpha", "beta"), ("beta", "alpha")):
+            env = jinja2.Environment(loader=jinja2.DictLoader({"lib": lib, "pageA": page, "pageB": page}), enable_async=is_async)
+            env.globals["g"] = "G"
+            got = []
+            for k, site in enumerate(order):
+                t = env.get_template("pageA" if k == 0 else "pageB", globals={"site": site})
+                got.append(render(t))
+                t2 = env.from_string(page, globals={"site": site + "2"})
+                got.append(render(t2))
+            want = []
+            for site in order:
+                want += [f"[{site}|G]{site}[{site}|G]", f"[{site}2|G]{site}2[{site}2|G]"]
+            if got != want:
+                problems.append(f"async={is_async}, pages with site={order}: rendered {got}, each page alone renders {want}")
+            plain = render(env.get_template("lib")) == "" and render(env.from_string("{% import 'lib' as lib %}{{ lib.f() }}")) == "[|G]"
+            if not plain:
+                problems.append(f"async={is_async}: an import without extra globals after imports with them does not use the plain module")
+    bad, det = native_module_cache(w)
+    if bad:
+        problems.append(det)
+    return (bool(problems), "; ".join(problems[:2])[:1200] or "imports with different template globals render each page's own values, in any order")
+
+
 def entry_tasks():
     ts = []
     for m in ("render", "render_async", "generate", "generate_async"):
@@ -675,6 +789,8 @@ def entry_tasks():
             nm = "_get_default_module" + ("_async" if a else "")
             ts.append(FrameOf(f"Template.{nm}[ctx={'context' if c else 'None'}]", c05, f"DefaultModule({a}, {c})",
                               relist=("cached_without_vars_or_uncached_from_extra_globals",), relist_as="C29.module.pure"))
+    cls_ = _default_module_fresh_cls()
+    ts += [cls_(a, c) for a in (False, True) for c in (False, True)]
     for n in (0, 2):
         for s_ in (False, True):
             ts.append(FrameOf(f"TemplateModule.__init__[exports={n},body_stream={'given' if s_ else 'None'}]", c05, f"ModuleInit({n}, {s_})"))
@@ -1159,7 +1275,11 @@ def eval_ctx_histories(task, tier, seed):
     rs.append(Res("C29.bounded.eval_ctx_histories", "bounded-ok", "native", 0, f"{5 - len(seq)} of 5 sequential histories repeat", "bounded"))
     for variant, det in seq:
         rs.append(Res("C29.bounded.eval_ctx_histories", "refuted", "native", 0, det[:900], "bounded", {"key": "sequential-leak", "variant": variant}))
-    th = eval_ctx_threads()
+    th = None
+    for _attempt in range(4):  # the race is probabilistic: a few attempts so that the listed finding is observed in every run
+        th = eval_ctx_threads()
+        if th:
+            break
     if th:
         rs.append(Res("C29.bounded.eval_ctx_histories", "refuted", "native", 0, th[:900], "bounded", {"key": "threads", "variant": "threads"}))
     return rs
@@ -1523,6 +1643,10 @@ def bounded_histories(part, parts):
         if part == 0:
             for n, kind, det in policy_problems() + policy_problems(is_async=True):
                 fails.setdefault((kind, n), det)
+        if part == 1:
+            bad, det = native_import_globals()
+            if bad:
+                fails.setdefault(("import-globals", "lib"), det)
         cases = 0
         for is_async in (False, True):
             use = [n for n in names if not (is_async and n == "t_cycler")]
@@ -1551,6 +1675,8 @@ def bounded_histories(part, parts):
 
 def replay_histories(w):
     n = (w or {}).get("template")
+    if (w or {}).get("kind") == "import-globals":
+        return native_import_globals(w)
     if n in POLICY_TEMPLATES or n == "*":
         return replay_policies(w)
     if n in TEMPLATES:
